@@ -198,8 +198,12 @@ def designator(rng, kind=None, piv=True):
 # ---------------------------------------------------------------------------------------------------------
 # whole responses: each case is dict(fmt, call, args, data, expect)
 
-def cases(rng, n_each=8):
+def cases(rng, n_each=8, trail=True):
     out = []
+    _trailing = globals()["trailing"]
+
+    def trailing(r):          # canonical responses carry no unused buffer space
+        return _trailing(r) if trail else b""
 
     def add(fmt, call, data, expect, args=None, note=""):
         out.append(dict(fmt=fmt, call=call, args=args or {}, data=list(data), expect=expect, note=note))
@@ -301,7 +305,7 @@ def cases(rng, n_each=8):
         for _ in range(rng.randint(0, 3)):
             et = rng.choice([1, 2, 3, 4])
             pv, av = rng.randrange(2), rng.randrange(2)
-            edl = 12 + 36 * pv + 36 * av + rng.choice([0, 4])
+            edl = 12 + 36 * pv + 36 * av + (rng.choice([0, 4]) if trail else 4)     # canonical: the four bytes after the tags present (zero)
             descs, dbody = [], b""
             for _ in range(rng.randint(0, 3)):
                 b, v = flat(rng, "res_descriptor")
@@ -314,8 +318,8 @@ def cases(rng, n_each=8):
                     v.update(v2)
                 else:
                     acc = rng.randrange(2)
-                    put(b, 2, 3, 1, acc)
-                    if et in (2, 4):
+                    if et in (2, 4):                    # ACCESS exists for storage and data transfer elements only
+                        put(b, 2, 3, 1, acc)
                         v["access"] = acc
                 o = 12
                 if pv:
